@@ -45,9 +45,10 @@ static Plan gen_life(uint64_t seed, const Op &opts) {
     int nops = (int) opts.geti("nops", 10);
     bool big = c.n >= 500;
     static const char *kinds[] = {"encrypt", "gate", "gate", "export_cloud", "export_secret", "export_ct", "import_cloud", "import_secret", "import_ct", "lowlevel", "thread",
-                                  "quad", "delete_ct", "delete_imported", "params_io", "key2"};
+                                  "quad", "delete_ct", "delete_imported", "params_io", "key2", "lowkey"};
     for (int i = 0; i < nops; i++) {
-        const char *k = kinds[r.below(16)];
+        const char *k = kinds[r.below(17)];
+        if (big && !strcmp(k, "lowkey")) k = "gate";
         if (big && (!strcmp(k, "key2"))) k = "gate";
         Op o; o.kind = "op"; o.set("k", k).setu("s", r.next()).seti("x", (int) r.below(8)).seti("y", (int) r.below(8)).seti("z", (int) r.below(8)).seti("tr", (int) r.below(2));
         p.ops.push_back(o);
@@ -205,6 +206,28 @@ static void exec_life(const Plan &p, RunResult &r) {
         } else if (k == "params_io") {
             Obj c; c.kind = K_GBPARAMS; c.p = L.params; c.owned = false; WriteLog log; export_via(c, wc, &log); bool sf = false;
             Obj b = import_via(c, log.bytes, rc, nullptr, &sf); r.ev.u64(hash_bytes(log.bytes.data(), log.bytes.size())); obj_free(b);
+        } else if (k == "lowkey") {
+            // low-level key objects with their own life cycles: a bootstrapping key, its FFT image (a self-contained copy: the
+            // constructor copies the key-switching key and converts every row), deleted in either order with uses in between
+            LweBootstrappingKey *bk = new_LweBootstrappingKey(L.c.t, L.c.basebit, L.params->in_out_params, L.params->tgsw_params);
+            tfhe_createLweBootstrappingKey(bk, L.sk->lwe_key, L.sk->tgsw_key);
+            int nf = 1 + (y & 1);
+            LweBootstrappingKeyFFT *bf = nf == 1 ? new_LweBootstrappingKeyFFT(bk) : new_LweBootstrappingKeyFFT_array(nf, bk);
+            LweSample *xin = new_LweSample(L.params->in_out_params), *v = new_LweSample(L.params->in_out_params);
+            bootsSymEncrypt(xin, x & 1, L.sk);
+            if (x & 2) {            // order A: the coefficient-domain key goes first, the FFT key keeps working
+                delete_LweBootstrappingKey(bk); bk = nullptr;
+                tfhe_bootstrap_FFT(v, bf + (nf - 1), T_1s8, xin); r.ev.u64(obs::hash_lwe(v, L.c.n)); r.ev.u64((uint64_t) bootsSymDecrypt(v, L.sk));
+                if (nf == 1) delete_LweBootstrappingKeyFFT(bf); else delete_LweBootstrappingKeyFFT_array(nf, bf);
+            } else {                // order B: the FFT key goes first, the coefficient-domain key keeps working
+                tfhe_bootstrap_FFT(v, bf, T_1s8, xin); r.ev.u64(obs::hash_lwe(v, L.c.n));
+                if (nf == 1) delete_LweBootstrappingKeyFFT(bf); else delete_LweBootstrappingKeyFFT_array(nf, bf);
+                { const LweParams *ext = &L.params->tgsw_params->tlwe_params->extracted_lweparams; LweSample *u = new_LweSample(ext);
+                  lweNoiselessTrivial(u, xin->b, ext); lweKeySwitch(v, bk->ks, u); r.ev.u64(obs::hash_lwe(v, L.c.n)); delete_LweSample(u); }
+                delete_LweBootstrappingKey(bk); bk = nullptr;
+            }
+            delete_LweSample(xin); delete_LweSample(v);
+            r.probes.add((x & 2) ? "lowkey_bk_deleted_first" : "lowkey_fft_deleted_first");
         } else if (k == "key2" && L.sks2.size() < 1) {
             L.sks2.push_back(new_random_gate_bootstrapping_secret_keyset(L.params));
         }
